@@ -443,7 +443,20 @@ func checkLimits(p *Program, r *Result) {
 					}
 				}
 				if _, f := findFact(facts, func(a Atom) bool {
-					return a.Kind == "cmp" && a.Op == "<=" && a.Y.S == maxWS && strings.Contains(a.X.String(), "removedWhitespace")
+					if a.Kind != "cmp" || a.Op != "<=" || a.Y.S != maxWS {
+						return false
+					}
+					// the running total: a loop-carried sum of line lengths
+					hasPhi, hasLen := false, false
+					a.X.Walk(func(t *Term) {
+						if t.Op == "Phi" {
+							hasPhi = true
+						}
+						if isLenTerm(t) {
+							hasLen = true
+						}
+					})
+					return hasPhi && hasLen && a.X.Op == "Bin" && a.X.S == "+"
 				}); f {
 					okLead = true
 				}
